@@ -3,7 +3,7 @@
    operations are read back pointwise, rejected calls change nothing, select_cells is exact,
    the emptiness layer / mask equals actual emptiness. *)
 From Coq Require Import ZArith List Bool Lia.
-From Mesa Require Import Common.ListX Model.PropLayer.
+From Mesa Require Import Common.ListX Generated.Tables Model.PropLayer.
 Import ListNotations.
 Open Scope Z_scope.
 
@@ -752,6 +752,42 @@ Proof.
 Qed.
 
 (* ---------- select_cells ---------- *)
+(* the pipeline in the order the statement needs: masks, only_empty, conditions, then the
+   extreme values among the cells that passed all of those *)
+Definition select_mask_fixed (st : state) (conds : list (Z * cond)) (exts : list (Z * Z))
+           (masks : list (list bool)) (only_empty : bool) : bmask + Z :=
+  let m0 := map (fun c => (c, true)) (all_coords (s_dims st)) in
+  let m1 := apply_masks (s_dims st) m0 masks in
+  match (if only_empty then
+           match empty_view st with
+           | Some e => Some (mask_and m1 (fun c => nz (aget0 e c)))
+           | None => None
+           end
+         else Some m1) with
+  | None => inr E_KEY
+  | Some m2 =>
+      match apply_conds st m2 conds with
+      | None => inr E_KEY
+      | Some m3 => apply_exts st m3 exts
+      end
+  end.
+
+Definition EXPECTED_ORDER : list sel_stage := [SMasks; SEmpty; SConds; SExts].
+(* T1: both implementations have the stages in that order in the CURRENT source *)
+Lemma source_select_order :
+  gen_select_order_discrete = EXPECTED_ORDER /\ gen_select_order_legacy = EXPECTED_ORDER.
+Proof. split; reflexivity. Qed.
+
+Lemma select_mask_eq st conds exts masks oe :
+  select_mask st conds exts masks oe = select_mask_fixed st conds exts masks oe.
+Proof.
+  unfold select_mask, select_mask_fixed. destruct source_select_order as [-> ->].
+  assert ((if s_discrete st then EXPECTED_ORDER else EXPECTED_ORDER) = EXPECTED_ORDER) as -> by (destruct (s_discrete st); reflexivity).
+  unfold EXPECTED_ORDER. simpl. destruct oe.
+  - destruct (empty_view st); [|reflexivity]. destruct (apply_conds st _ conds); [|reflexivity].
+    destruct (apply_exts st b exts); reflexivity.
+  - destruct (apply_conds st _ conds); [|reflexivity]. destruct (apply_exts st b exts); reflexivity.
+Qed.
 Definition fmask (F : coord -> bool) (l : list coord) : bmask := map (fun c => (c, F c)) l.
 
 Lemma mask_and_fmask F f l : mask_and (fmask F l) f = fmask (fun c => F c && f c) l.
@@ -940,7 +976,7 @@ Section Select.
     forall c, In c (mask_list m) <->
               (In c coords /\ passes_exts (passes_base masks oe conds) exts c).
   Proof.
-    unfold select_mask. fold coords. change (map (fun c => (c, true)) coords) with (fmask (fun _ => true) coords).
+    rewrite select_mask_eq. unfold select_mask_fixed. fold coords. change (map (fun c => (c, true)) coords) with (fmask (fun _ => true) coords).
     destruct (masks_ok masks (fun _ => true)) as [F1 [E1 H1]]. fold coords in E1. rewrite E1.
     set (F2 := fun c => F1 c && (if oe then match empty_view st with Some e => nz (aget0 e c) | None => false end else true)).
     assert (forall X, match (if oe then match empty_view st with
